@@ -634,7 +634,7 @@ FUNCS = {"Mark": (["i64"], "bnone"), "IdI": (["i"], "(becho 0)"), "IdI8": (["i8"
          "IdI32": (["i32"], "(becho 0)"), "IdI64": (["i64"], "(becho 0)"), "IdU": (["u"], "(becho 0)"), "IdU8": (["u8"], "(becho 0)"),
          "IdU16": (["u16"], "(becho 0)"), "IdU32": (["u32"], "(becho 0)"), "IdU64": (["u64"], "(becho 0)"), "IdF32": (["f32"], "(becho 0)"),
          "IdF64": (["f64"], "(becho 0)"), "IdS": (["s"], "(becho 0)"), "IdB": (["b"], "(becho 0)"), "Two": (["i64", "f64"], "(becho 0)"),
-         "Mix3": (["u8", "s", "i32"], "(becho 2)"), "NoRet": ([], "bnone"), "Boom": ([], "bpanic"), "Hold": (["s"], "bnone")}
+         "Mix3": (["u8", "s", "i32"], "(becho 2)"), "NoRet": ([], "bnone"), "Boom": ([], "bpanic"), "Hold": (["s"], "bnone"), "Gate": (["s"], "bnone"), "After": (["s"], "bnone")}
 HOST_METHODS = {"Mark": (["i64"], "bnone"), "Id64": (["i64"], "(becho 0)"), "IdU8": (["u8"], "(becho 0)"), "IdF64": (["f64"], "(becho 0)"), "Boom": ([], "bpanic"),
                 "Echo": (["i64"], "(becho 0)")}
 SUB_METHODS = {"GetN": (["i32"], "(becho 0)"), "EchoN": (["i32"], "(becho 0)")}
@@ -798,6 +798,10 @@ def run_lang(cases, timeout=150):
             p["twice"] = True
         if c.get("reinject"):
             p["reinject"] = True
+        if c.get("hold"):
+            p["hold"] = c["hold"]
+        if c.get("model"):
+            p["model"] = c["model"]
     shards = [payload[i::NCPU] for i in range(NCPU)]
     shards = [s for s in shards if s]
 
